@@ -232,6 +232,11 @@ def run(tier, seed):
             continue
         if nfail > 0:
             distinct.add(norm_hash(json.dumps(ja["steps"])))
+    # ---- module evaluation as a host entry: load + link + evaluate + job drains of generated module graphs
+    # (cycles, top-level await, throwing bodies, link and parse errors); several graphs share one context
+    mod = module_stream(chk, binary, seed, 1500 if thorough else 150)
+    entries_checked += mod["evaluations"]
+    distinct |= mod["distinct"]
     chk.assumptions = ["failing entries are built so that they have no script-visible effect before they fail, which makes the twin comparison exact",
                        "depths are read through the vm_depths hook at the host boundary only"]
     return chk.finish(
@@ -240,14 +245,83 @@ def run(tier, seed):
              "(value, throw at top and in nested frames, early and runtime SyntaxError, each RuntimeLimit kind) on one context with small limits; "
              "non-trivial = the sequence contained at least one failed entry and all conservation and twin comparisons were made; distinct by step list",
         samples=[[s[0] for s in seqs[k][0][:12]] for k in range(min(3, len(seqs)))],
-        extra={"sequences": nseq, "entry_kinds_exercised": kinds_seen, "completion_kinds_observed": outcomes, "unbalanced_entries_by_kind": leaks_seen},
+        extra={"sequences": nseq, "entry_kinds_exercised": kinds_seen, "completion_kinds_observed": outcomes, "unbalanced_entries_by_kind": leaks_seen,
+               "module_evaluations": mod["evaluations"], "module_outcomes": mod["outcomes"], "module_contexts": mod["contexts"]},
         min_nontrivial=20)
+
+
+def module_stream(chk, binary, seed, ncontexts):
+    from .. import gen_modgraph as G
+    known = {}
+    try:
+        with open(core.os.path.join(core.VERIF, "known", "c17_findings.json")) as f:
+            d = json.load(f)
+        for k in (d["findings"] if isinstance(d, dict) else d):
+            if k.get("status") == "open":
+                known.update({a: k["id"] for a in k.get("avoid", [])})
+    except (OSError, ValueError):
+        pass
+    jobs = []
+    for c in range(ncontexts):
+        r = Rng(seed, "c07", "mod", c)
+        mods, entries = {}, []
+        tries = 0
+        want = r.choice([1, 3, 8])
+        while len(entries) < want * 2 and tries < 60:
+            tries += 1
+            spec = G.random_spec(r.fork("g", tries))
+            case = G.build_case(spec, "c07-%d-%d" % (c, tries), prefix="g%d_" % tries)
+            # graphs on which an open C17 finding makes the engine panic or hang are C17's subject
+            if G.avoid_flags(case["meta"], case["meta"]["entry"], case["meta"]["second"]) & set(known):
+                continue
+            mods.update(case["job"]["modules"])
+            entries.append(["entry", case["job"]["entry"]])
+            entries.append(["re", case["job"]["entry"]])
+        jobs.append({"id": "c07m-%d" % c, "modules": mods, "entries": entries, "setup": G.SETUP})
+    res = runner.run_bvh(binary, "modules", jobs, "c07m", timeout=60)
+    out = {"evaluations": 0, "distinct": set(), "outcomes": {}, "contexts": 0}
+    reported = 0
+    for j, r in zip(jobs, res):
+        f = r.get("fatal")
+        if f:
+            chk.inconc("modules:" + str(f)[:24])
+            continue
+        out["contexts"] += 1
+        for ev in r.get("evals", []):
+            out["evaluations"] += 1
+            oc = str(ev.get("state", "?")).split(":")[0]
+            out["outcomes"][oc] = out["outcomes"].get(oc, 0) + 1
+            d0, d1 = ev.get("d0"), ev.get("d1")
+            if d0 is None or d1 is None:
+                raise core.NoVerdict("the modules subcommand does not report VM depths")
+            if d0[:4] != d1[:4]:
+                if reported < 3:
+                    reported += 1
+                    chk.violation("module evaluation %s(%s), settled as %s, left the VM unbalanced: (frames, value stack, pending exception, host_call_depth) "
+                                  "before=%s after=%s" % (ev.get("what"), ev.get("name"), str(ev.get("state"))[:40], d0[:4], d1[:4]),
+                                  {"kind": "modules", "job": j, "evaluation": [ev.get("what"), ev.get("name")]})
+            elif oc != "fulfilled":
+                out["distinct"].add(norm_hash(json.dumps([j["modules"], ev.get("name")], sort_keys=True)))
+    return out
 
 
 def replay(path, seed):
     with open(path) as f:
         rep = json.load(f)
     binary = build.ensure("bvh", "native")
+    if rep.get("kind") == "modules":
+        r = runner.run_bvh(binary, "modules", [rep["job"]], "c07r", shards=1, timeout=120)[0]
+        if r.get("fatal"):
+            print("fatal:", r["fatal"])
+            print("NO-VERDICT C07: the module job did not run")
+            return 2
+        for ev in r.get("evals", []):
+            if ev["d0"][:4] != ev["d1"][:4]:
+                print("evaluation %s(%s) %s: %s -> %s" % (ev.get("what"), ev.get("name"), str(ev.get("state"))[:40], ev["d0"], ev["d1"]))
+                print("VIOLATION property=C07 replay=%s" % path)
+                return 1
+        print("C07 replay: balanced")
+        return 0
     r = runner.run_bvh(binary, "session", [rep["job"]], "c07r", shards=1, timeout=120)[0]
     if r.get("fatal"):
         print("fatal:", r["fatal"])
